@@ -153,7 +153,7 @@ theorem sameBC_lc (a b : Deme) (h : SameBC a b) : b.level = a.level ∧ b.counte
 theorem create_count {t t' : T} {parent : Option Deme} {seed : Option Ind} {env : NewEnv}
     (hinv : CountInv t) (h : createDeme t parent seed env = .ok t') : CountInv t' := by
   have ce := createDeme_effect h
-  obtain ⟨old, d, hd, hf, _, _, _, _, _, _, _, _, _, _, invs, hlog, _, hb, hcnt⟩ := ce.demes
+  obtain ⟨old, d, hd, hf, _, _, _, _, _, _, _, _, _, _, _, invs, hlog, _, hb, hcnt⟩ := ce.demes
   intro href lv
   have hr0 : t.refused = false := refused_false_of ce.refusedMono href
   rw [hd, hlog, levelEvals_append, logCount_append, levelEvals_rel sameBC_lc hf lv, hinv hr0 lv,
